@@ -32,8 +32,14 @@ def handle (j : Json) : Except String Json := do
     let redges ← (← arrOf (← j.getObjVal? "redges")).mapM rawPairOf
     let medges ← (← arrOf (← j.getObjVal? "medges")).mapM pairOf
     let inp : Input := { nodes, redges, medges }
+    -- `find_connecting_edges` for every residue-graph edge (in the order given)
+    let connecting := redges.map fun e =>
+      match inp.node? e.1, inp.node? e.2 with
+      | some A, some B => Json.arr ((findConnectingEdges inp A B).map fun p => Json.arr #[toJson p.1, toJson p.2]).toArray
+      | _, _ => Json.null
     pure (okJson [("missing", Json.arr ((findMissingEdges inp).map missingToJson).toArray),
-                  ("spec", Json.arr ((specMissing inp).map missingToJson).toArray)])
+                  ("spec", Json.arr ((specMissing inp).map missingToJson).toArray),
+                  ("connecting", Json.arr connecting.toArray)])
   | "gate" =>
     let mols ← (← arrOf (← j.getObjVal? "mols")).mapM fun m => do
       let atoms ← (← arrOf (← m.getObjVal? "atoms")).mapM fun a => do
